@@ -50,3 +50,20 @@ Print Assumptions C09_escape_collisions_are_the_recorded_class.
 Theorem C09_escape_injective_refuted : c_ident "int" = c_ident "int_" /\ "int" <> "int_".
 Proof. exact c_collision_witness. Qed.
 Print Assumptions C09_escape_injective_refuted.
+
+(* ---------- C++ headers (Headers/Cpp.v): T.hpp = T.d.hpp, then X.hpp for every other type mentioned, then inline bodies ---------- *)
+From DV Require Import Headers.Cpp Headers.CppProofs.
+
+(* in the include-once expansion of any T.hpp every class is defined before a by-value field or an inline method body needs
+   it complete: any set of types with acyclic by-value containment, any pointer / signature references, cycles between impl
+   headers included (the flag says the expansion did not run out of fuel) *)
+Theorem C09_cpp_complete_before_body : forall e fd fuel t,
+  (forall x, depth_le e fd x = true) ->
+  snd (hpp_events e (S fd) fuel t) = true -> declared_before_use (fst (hpp_events e (S fd) fuel t)) = true.
+Proof. exact cpp_complete_before_body. Qed.
+Print Assumptions C09_cpp_complete_before_body.
+
+(* and the decl header forward-declares every name its method declarations mention *)
+Theorem C09_cpp_decl_names_declared : forall e t, decl_names_ok e t = true.
+Proof. exact cpp_decl_names_declared. Qed.
+Print Assumptions C09_cpp_decl_names_declared.
